@@ -14,6 +14,73 @@ from vlib import Infra
 
 LEVEL = "model_checking"
 
+MAXINT = 2 ** 63 - 1
+
+
+def spec_range(start, end, mx, align):
+    """The range the property text demands, on Python's unbounded integers (independent of the TLA+ transcription)."""
+    if start < 0 or end < 0 or start > end:
+        return {"ok": False, "start": 0, "count": 0}
+    e1 = min(end, start + mx - 1)
+    e2 = e1
+    if align and end - start + 1 >= mx:
+        e2 = max(x for x in range(max(start, e1 - mx + 1), e1 + 1) if (x + 1) % mx == 0) if mx <= 4096 else \
+            e1 - ((e1 + 1) % mx)
+    return {"ok": True, "start": start, "count": e2 - start + 1}
+
+
+def int64_symbolic(ctx):
+    """GetEntriesRangeInt.tla: Apalache checks the range laws for ALL int64 start / end (one batch size per run) and
+    produces concrete int64 witnesses per boundary class, which are sent to the real handler."""
+    sizes = ctx.pick(["1", "3", "1000"], ["1", "2", "3", "4", "5", "7", "10", "64", "256", "1000", "1024", "65535",
+                                           "2147483647", "Two62", "MaxInt"])
+    jobs = [{"inv": "LawNew", "cinit": "CInit" + m, "label": "law-" + m} for m in sizes]
+    # the pre-repair computation must be refuted (shows that the laws have teeth on true int64 values)
+    jobs.append({"inv": "LawOld", "cinit": "CInit1000", "label": "old-1000"})
+    wsizes = ctx.pick(["1000", "3"], ["1000", "3", "1", "2", "7", "64", "1024"])
+    classes = ["NotW%02d" % k for k in range(1, 17)]
+    for m in wsizes:
+        for w in classes:
+            jobs.append({"inv": w, "cinit": "CInit" + m, "label": "%s-%s" % (w, m)})
+    res = ctx.apalache("ctfe", "GetEntriesRangeInt", jobs, parallel=8, timeout=ctx.pick(600, 3000))
+    cases = []
+    proved = 0
+    for r in res:
+        inv = r["job"]["inv"]
+        if inv == "LawNew":
+            if r["outcome"] != "NoError":
+                # a counterexample on the transcription: decide on the real code, never from the model alone
+                st = r["state"]
+                cases.append({"c": {"start": st["start"], "end": st["end"], "max": st["Max"], "align": st["align"]},
+                              "expect": spec_range(st["start"], st["end"], st["Max"], st["align"])})
+                ctx.log("Apalache counterexample to LawNew (%s): replaying it against the real handler" % st)
+            else:
+                proved += 1
+        elif inv == "LawOld":
+            if r["outcome"] != "Error":
+                raise Infra("Apalache did not refute the pre-repair range computation: the laws are vacuous")
+            st = r["state"]
+            cases.append({"c": {"start": st["start"], "end": st["end"], "max": st["Max"], "align": st["align"]},
+                          "expect": spec_range(st["start"], st["end"], st["Max"], st["align"])})
+        else:
+            if r["outcome"] != "Error":
+                continue   # an empty class for this batch size (e.g. Want = Max - 1 with Max = 1)
+            st = r["state"]
+            if st["Max"] > 4096:
+                continue
+            cases.append({"c": {"start": st["start"], "end": st["end"], "max": st["Max"], "align": st["align"]},
+                          "expect": spec_range(st["start"], st["end"], st["Max"], st["align"])})
+    ctx.notes["apalache"] = {"laws_proved_for_all_int64_per_batch_size": proved, "batch_sizes": sizes,
+                             "witness_cases_sent_to_handler": len(cases)}
+    ctx.assumptions.append("Apalache (SMT, unbounded integers) checks the range laws on GetEntriesRangeInt.tla for all int64 "
+                           "start/end, one batch size per run; its witnesses are replayed with expectations computed "
+                           "from the property text in Python")
+    if not cases:
+        raise Infra("Apalache produced no witness cases")
+    path = ctx.write_ndjson("cases-int64.ndjson", cases)
+    ctx.go_test("cctfe", run="TestRange$", env={"VERIF_CASES": path, "VERIF_MAXWORD": MAXINT}, timeout=3000,
+                name="range-int64")
+
 
 def run(ctx, replay=None):
     ctx.assumptions += [
@@ -43,6 +110,7 @@ def run(ctx, replay=None):
     ctx.go_test("cctfe", run="TestRange$", env={"VERIF_CASES": path, "VERIF_MAXWORD": ctx.pick(7807, 22807)}, timeout=3000)
     if replay:
         return
+    int64_symbolic(ctx)
     # "all stored entries": what a served entry decodes to, for every shape of submission and every chain storage mode
     ctfe_common.entry_shapes(ctx, "C07")
     # stored bytes stay served when issuance chains live outside the backend, across storage faults and cold caches
